@@ -12,7 +12,7 @@ RULE = ('cases = every tabulation target (11 potable targets + writePotentials x
         'dipole and quadrupole functions all occur), through (a) the Python API with counting/raising proxies around every callable and a '
         'recording sink, followed by a second write() on the same object, and (b) potable main() in-process with a formula that leaves its '
         'domain at row i of function j (every function x every row) + real subprocess runs; non-trivial = every k (each is a distinct crash point)')
-RULE += '; 14 exception classes incl. KeyboardInterrupt / SystemExit / AttributeError (also with every proxy as the only range of a multi-range form); evaluations that RETURN a complex number or None at k (a write that does not fail must emit a complete table); write-only and gzip text sinks; six-species 10^4-row tables failing late; potable formulas whose value becomes complex (negative base ** 1.5)'
+RULE += '; 14 exception classes incl. KeyboardInterrupt / SystemExit / AttributeError (also with every proxy as the only range of a multi-range form); evaluations that RETURN a complex number or None at k (a write that does not fail must emit a complete table); write-only, gzip, lzma, bz2 and forward-only (seekable() == False) text sinks; six-species 10^4-row tables failing late; potable formulas whose value becomes complex (negative base ** 1.5)'
 ASSUMPTIONS = [
     'a failing evaluation is modelled as an exception raised by the model callable (Python API) or by pymath.sqrt of a negative number inside a formula (potable)',
     'the sink is an in-memory file object (text or binary as open_fp would give) or the named OUTPUT_FILE',
@@ -145,6 +145,45 @@ class GzipSink(object):
         return data
 
 
+class ForwardOnly(io.TextIOBase):
+    """a complete text stream that says it cannot be rewound (what a pipe, a FIFO or a socket file answers): writable(), seekable() == False"""
+    def __init__(self):
+        io.TextIOBase.__init__(self)
+        self.parts = []
+
+    def writable(self):
+        return True
+
+    def seekable(self):
+        return False
+
+    def write(self, s):
+        self.parts.append(s)
+        return len(s)
+
+    def getvalue(self):
+        return ''.join(self.parts)
+
+
+class CompressedSink(GzipSink):
+    """lzma.open / bz2.open(path, 'wt'): forward-only compressed text streams (seekable() is False while writing)"""
+    def __init__(self, modname):
+        import importlib
+        self.mod = importlib.import_module(modname)
+        self.path = tempfile.mktemp(dir=R.scratch(), suffix='.' + modname)
+        self.fp = self.mod.open(self.path, 'wt')
+
+    def getvalue(self):
+        try:
+            self.fp.close()
+        except Exception:  # noqa
+            pass
+        with self.mod.open(self.path, 'rt') as f:
+            data = f.read()
+        os.remove(self.path)
+        return data
+
+
 def api_run(target, k, n, exc=InjectedFault, big=False, ret=None, sink_kind=None, wrap=False):
     """-> (raised?, bytes in sink, evaluations, second-write outcome)"""
     shared = Shared(k, exc, ret)
@@ -155,11 +194,15 @@ def api_run(target, k, n, exc=InjectedFault, big=False, ret=None, sink_kind=None
         sink = WriteOnly()
     elif sink_kind == 'gzip':
         sink = GzipSink()
+    elif sink_kind == 'forward-only':
+        sink = ForwardOnly()
+    elif sink_kind in ('lzma', 'bz2'):
+        sink = CompressedSink(sink_kind)
     if ret is not None:
         exc = Exception
     raised = False
     try:
-        write(sink.fp if sink_kind == 'gzip' else sink)
+        write(sink.fp if sink_kind in ('gzip', 'lzma', 'bz2') else sink)
     except exc:
         raised = True
     if raised and not big:
@@ -302,8 +345,8 @@ def cases(tier):
         if tgt.startswith('excel'):
             continue
         N, _ref = count_evals(tgt, 4)
-        for kind in ('writeonly', 'gzip'):
-            for k in sorted(set([0, 1, 2, N // 3, N // 2, N - 1, N])):
+        for kind in ('writeonly', 'gzip', 'forward-only', 'lzma', 'bz2'):
+            for k in (range(0, N + 1) if kind == 'forward-only' else sorted(set([0, 1, 2, N // 3, N // 2, N - 1, N]))):
                 out.append(dict(route='api', target=tgt, k=k, n=4, N=N, sink=kind))
     # tables of several MiB: failures late in the write (after megabytes of text have been produced)
     for tgt in BIG_TARGETS:
